@@ -2272,4 +2272,673 @@ theorem rows_sublist_of_asgs {env : SpecEnv} {q q' : Query}
   obtain ⟨as', has', rfl⟩ := rows_ok.mp hr'
   exact (h as as' has has').map _
 
+
+/-! ## §6 reordering sibling selections
+
+Swapping two selections changes the *order* in which tags and outputs are appended to an
+assignment, never their content.  `AsgEq` identifies assignments up to that order; the denotation
+respects it. -/
+
+theorem Forall₂.append {α β : Type} {P : α → β → Prop} {l1 l3 : List α} {l2 l4 : List β}
+    (h1 : Forall₂ P l1 l2) (h2 : Forall₂ P l3 l4) : Forall₂ P (l1 ++ l3) (l2 ++ l4) := by
+  induction h1 with
+  | nil => exact h2
+  | cons h _ ih => exact .cons h ih
+
+theorem Forall₂.refl_of {α : Type} {P : α → α → Prop} (h : ∀ a, P a a) (l : List α) : Forall₂ P l l := by
+  induction l with
+  | nil => exact .nil
+  | cons a l ih => exact .cons (h a) ih
+
+theorem Forall₂.flatMap {α β γ δ : Type} {P : α → β → Prop} {Q : γ → δ → Prop} {l1 : List α}
+    {l2 : List β} {f : α → List γ} {g : β → List δ} (h : Forall₂ P l1 l2)
+    (hfg : ∀ a b, P a b → Forall₂ Q (f a) (g b)) : Forall₂ Q (l1.flatMap f) (l2.flatMap g) := by
+  induction h with
+  | nil => exact .nil
+  | cons h _ ih => simp only [List.flatMap_cons]; exact (hfg _ _ h).append ih
+
+theorem Forall₂.map {α β γ δ : Type} {P : γ → δ → Prop} {l1 : List α} {l2 : List β}
+    {Q : α → β → Prop} (h : Forall₂ Q l1 l2) {f : α → γ} {g : β → δ}
+    (hfg : ∀ a b, Q a b → P (f a) (g b)) : Forall₂ P (l1.map f) (l2.map g) := by
+  induction h with
+  | nil => exact .nil
+  | cons h _ ih => exact .cons (hfg _ _ h) ih
+
+/-- Same tag bindings (as a lookup table) and same outputs (as a multiset and as a lookup table). -/
+structure AsgEq (a b : Asg) : Prop where
+  tags : ∀ n, a.tag? n = b.tag? n
+  perm : a.outs.Perm b.outs
+  outs : ∀ n, a.outs.find? (·.1 == n) = b.outs.find? (·.1 == n)
+
+theorem AsgEq.refl (a : Asg) : AsgEq a a := ⟨fun _ => rfl, List.Perm.refl _, fun _ => rfl⟩
+
+theorem tag?_append (ta t : List (Name × Tagged)) (o : List (Name × Value)) (n : Name) :
+    Asg.tag? ⟨ta ++ t, o⟩ n = (Asg.tag? ⟨ta, o⟩ n).or (Asg.tag? ⟨t, o⟩ n) := by
+  simp only [Asg.tag?, List.find?_append]
+  cases List.find? (fun x => x.1 == n) ta <;> simp
+
+theorem tag?_outs_irrel (t : List (Name × Tagged)) (o o' : List (Name × Value)) (n : Name) :
+    Asg.tag? ⟨t, o⟩ n = Asg.tag? ⟨t, o'⟩ n := rfl
+
+theorem AsgEq.append_tags {a b : Asg} (h : AsgEq a b) (t : List (Name × Tagged)) :
+    AsgEq ⟨a.tags ++ t, a.outs⟩ ⟨b.tags ++ t, b.outs⟩ := by
+  refine ⟨fun n => ?_, h.perm, h.outs⟩
+  rw [tag?_append, tag?_append]
+  have := h.tags n
+  simp only [Asg.tag?] at this ⊢
+  rw [this]
+
+theorem AsgEq.append_outs {a b : Asg} (h : AsgEq a b) (o : List (Name × Value)) :
+    AsgEq ⟨a.tags, a.outs ++ o⟩ ⟨b.tags, b.outs ++ o⟩ := by
+  refine ⟨h.tags, h.perm.append_right o, fun n => ?_⟩
+  simp only [List.find?_append, h.outs n]
+
+theorem AsgEq.bindDir {a b : Asg} (h : AsgEq a b) (v : Option VertexId) (value : Value) (d : Dir) :
+    AsgEq (bindDir v value a d) (bindDir v value b d) := by
+  cases d with
+  | filter op arg => exact h
+  | tag n => exact h.append_tags _
+  | output n => exact h.append_outs _
+
+theorem AsgEq.foldl_bindDir {a b : Asg} (h : AsgEq a b) (v : Option VertexId) (value : Value)
+    (dirs : List Dir) : AsgEq (dirs.foldl (SpecMeta.bindDir v value) a) (dirs.foldl (SpecMeta.bindDir v value) b) := by
+  induction dirs generalizing a b with
+  | nil => exact h
+  | cons d dirs ih => exact ih (h.bindDir v value d)
+
+theorem AsgEq.bindProps {a b : Asg} (h : AsgEq a b) (env : SpecEnv) (v : Option VertexId)
+    (fields : List QField) : AsgEq (bindProps env v fields a) (bindProps env v fields b) := by
+  induction fields generalizing a b with
+  | nil => simpa [Spec.bindProps] using h
+  | cons fld rest ih =>
+    cases fld with
+    | prop nm dirs => simp only [bindProps_prop]; exact ih (h.foldl_bindDir v _ dirs)
+    | edge nm ps k c => simp only [Spec.bindProps]; exact ih h
+
+/-- A filter looks at the assignment only through the tag it compares with. -/
+theorem filterHolds_congr (env : SpecEnv) (a b : Asg) (v : Option VertexId) (left : Value) (op : FOp)
+    (arg : QArg) (h : ∀ n, arg = .tag n → a.tag? n = b.tag? n) :
+    filterHolds env a v left op arg = filterHolds env b v left op arg := by
+  cases v with
+  | none => rfl
+  | some x =>
+    cases op with
+    | un o => rfl
+    | bin o =>
+      cases arg with
+      | var n => rfl
+      | none => rfl
+      | tag n => simp only [filterHolds, h n rfl]
+
+theorem filtersHold_congr (env : SpecEnv) (a b : Asg) (v : Option VertexId) (left : Value)
+    (fs : List (FOp × QArg)) (h : ∀ f ∈ fs, ∀ n, f.2 = .tag n → a.tag? n = b.tag? n) :
+    filtersHold env a v left fs = filtersHold env b v left fs := by
+  induction fs with
+  | nil => rfl
+  | cons f fs ih =>
+    obtain ⟨op, arg⟩ := f
+    rw [filtersHold_cons, filtersHold_cons, filterHolds_congr env a b v left op arg (h (op, arg) (by simp)),
+      ih (fun f hf => h f (by simp [hf]))]
+
+theorem mem_dirTagUses {dirs : List Dir} {f : FOp × QArg} (hf : f ∈ dirFilters dirs) {n : Name}
+    (hn : f.2 = .tag n) : n ∈ dirs.flatMap dirTagUses := by
+  simp only [dirFilters, List.mem_filterMap] at hf
+  obtain ⟨d, hd, hdf⟩ := hf
+  rw [List.mem_flatMap]
+  refine ⟨d, hd, ?_⟩
+  cases d with
+  | filter op arg =>
+    simp only [Option.some.injEq] at hdf
+    subst hdf
+    simp only at hn
+    subst hn
+    simp [dirTagUses]
+  | tag t => simp at hdf
+  | output o => simp at hdf
+
+theorem propFiltersHold_congr (env : SpecEnv) (a b : Asg) (v : Option VertexId)
+    (fields : List QField) (h : ∀ n ∈ tagUsesFields fields, a.tag? n = b.tag? n) :
+    propFiltersHold env a v fields = propFiltersHold env b v fields := by
+  induction fields with
+  | nil => rfl
+  | cons fld rest ih =>
+    rw [propFiltersHold_cons, propFiltersHold_cons]
+    cases fld with
+    | prop nm dirs =>
+      simp only [tagUsesFields, List.mem_append] at h
+      rw [ih (fun n hn => h n (Or.inr hn))]
+      simp only [fieldFilters]
+      rw [filtersHold_congr env a b v _ _ (fun f hf n hn => h n (Or.inl (mem_dirTagUses hf hn)))]
+    | edge nm ps k c =>
+      simp only [tagUsesFields, List.mem_append] at h
+      rw [ih (fun n hn => h n (Or.inr hn))]
+      simp only [fieldFilters]
+
+/-- Results related by `P` on success, the same failure otherwise. -/
+def RelRR (P : List Asg → List Asg → Prop) : R (List Asg) → R (List Asg) → Prop
+  | .ok l, .ok l' => P l l'
+  | .panic s, .panic s' => s = s'
+  | .fuel, .fuel => True
+  | _, _ => False
+
+abbrev F₂ := Forall₂ AsgEq
+
+theorem flatMapR_rel {α β : Type} {Q : α → β → Prop} {f : α → R (List Asg)} {g : β → R (List Asg)}
+    {xs : List α} {ys : List β} (h : Forall₂ Q xs ys)
+    (hfg : ∀ x y, Q x y → RelRR F₂ (f x) (g y)) : RelRR F₂ (flatMapR f xs) (flatMapR g ys) := by
+  induction h with
+  | nil => exact .nil
+  | cons hxy _ ih =>
+    rename_i x y xs ys _
+    simp only [flatMapR]
+    have h1 := hfg x y hxy
+    revert h1 ih
+    cases f x <;> cases g y <;> simp only [RelRR, false_imp_iff, imp_true_iff] <;>
+      cases flatMapR f xs <;> cases flatMapR g ys <;> simp only [RelRR, false_imp_iff, imp_true_iff]
+    · intro h1 h2; exact h2.append h1
+    all_goals first | (intro h1 h2; exact h2) | (intro h1; exact h1) | (intro h1 h2; exact h1)
+
+theorem RelRR.of_eq (x : R (List Asg)) : RelRR F₂ x x := by
+  cases x with
+  | ok l => exact Forall₂.refl_of AsgEq.refl l
+  | panic s => rfl
+  | fuel => trivial
+
+theorem AsgEq.tagStep {a b : Asg} (h : AsgEq a b) (count : Value) (d : FDir) :
+    AsgEq (tagStep count a d) (tagStep count b d) := by
+  cases d with
+  | countTag n => exact h.append_tags _
+  | countOutput n => exact h
+  | countFilter op arg => exact h
+
+theorem AsgEq.missStep {a b : Asg} (h : AsgEq a b) (d : FDir) :
+    AsgEq (missStep a d) (missStep b d) := by
+  cases d with
+  | countTag n => exact h.append_tags _
+  | countOutput n => exact h.append_outs _
+  | countFilter op arg => exact h
+
+theorem AsgEq.foldl_step {step : Asg → FDir → Asg}
+    (hs : ∀ a b d, AsgEq a b → AsgEq (step a d) (step b d)) {a b : Asg} (h : AsgEq a b)
+    (fds : List FDir) : AsgEq (fds.foldl step a) (fds.foldl step b) := by
+  induction fds generalizing a b with
+  | nil => exact h
+  | cons d fds ih => exact ih (hs a b d h)
+
+theorem lookupOut_congr {e e' : Asg} (h : AsgEq e e') (n : Name) : lookupOut e n = lookupOut e' n := by
+  simp only [lookupOut, h.outs n]
+
+theorem map_lookupOut_congr {elems elems' : List Asg} (he : F₂ elems elems') (n : Name) :
+    elems.map (fun e => lookupOut e n) = elems'.map (fun e => lookupOut e n) := by
+  induction he with
+  | nil => rfl
+  | cons hab _ ih => simp only [List.map_cons, lookupOut_congr hab n, ih]
+
+theorem foldFinish_resp (env : SpecEnv) (v : Option VertexId) (fds : List FDir) (names : List Name)
+    {a b : Asg} (h : AsgEq a b) {elems elems' : List Asg} (he : F₂ elems elems') :
+    RelRR F₂ (foldFinish env a v fds names elems) (foldFinish env b v fds names elems') := by
+  have hc : countOf elems = countOf elems' := by simp [countOf, he.length_eq]
+  have hT := AsgEq.foldl_step (step := tagStep (countOf elems)) (fun a b d h => h.tagStep _ d) h fds
+  have hl : ∀ n : Name, elems.map (fun e => lookupOut e n) = elems'.map (fun e => lookupOut e n) :=
+    fun n => map_lookupOut_congr he n
+  simp only [foldFinish, ← hc]
+  rw [filtersHold_congr env _ _ v _ _ (fun _ _ n _ => hT.tags n)]
+  cases filtersHold env (fds.foldl (tagStep (countOf elems)) b) v (countOf elems) (fds.filterMap fdirFilter) with
+  | ok ok =>
+    cases ok with
+    | false => exact .nil
+    | true =>
+      refine .cons ?_ .nil
+      simp only [foldOk, ← hc, hl]
+      exact (hT.append_outs _).append_outs _ |> fun x => by simpa [List.append_assoc] using x
+  | panic s => rfl
+  | fuel => trivial
+
+/-- "`evalNode` at this fuel respects `AsgEq`" — the induction hypothesis of `evalNode_resp`. -/
+def NodeResp (env : SpecEnv) (fuel : Nat) : Prop :=
+  ∀ (n : QNode) (v : Option VertexId) (a b : Asg),
+    AsgEq a b → RelRR F₂ (evalNode env fuel n v a) (evalNode env fuel n v b)
+
+theorem flatMapR_nbrs_resp {env : SpecEnv} {fuel : Nat} (ih : NodeResp env fuel) (c : QNode)
+    (a b : Asg) (l : List VertexId) (hab : AsgEq a b) :
+    RelRR F₂ (flatMapR (fun n => evalNode env fuel c (some n) a) l)
+      (flatMapR (fun n => evalNode env fuel c (some n) b) l) :=
+  flatMapR_rel (Q := Eq) (Forall₂.refl_of (fun _ => rfl) l)
+    (fun x y hxy => by subst hxy; exact ih c (some x) a b hab)
+
+theorem evalEdge_resp_of {env : SpecEnv} {fuel : Nat} (ih : NodeResp env fuel) (owners : List Name)
+    (nm : Name) (ps : Params) (k : Kind) (c : QNode) (v : Option VertexId) (a b : Asg)
+    (hab : AsgEq a b) :
+    RelRR F₂ (evalEdge env fuel owners nm ps k c v a) (evalEdge env fuel owners nm ps k c v b) := by
+  cases k with
+  | plain =>
+    simp only [evalEdge_plain]
+    cases v with
+    | none => exact ih c none a b hab
+    | some x => exact flatMapR_nbrs_resp ih c a b _ hab
+  | optional =>
+    simp only [evalEdge_optional]
+    split
+    · exact ih c none a b hab
+    · exact flatMapR_nbrs_resp ih c a b _ hab
+  | recurse d =>
+    simp only [evalEdge_recurse]
+    cases v with
+    | none => exact ih c none a b hab
+    | some x => exact flatMapR_nbrs_resp ih c a b _ hab
+  | fold fds =>
+    simp only [evalEdge_fold]
+    cases v with
+    | none =>
+      refine .cons ?_ .nil
+      simp only [foldMissing]
+      exact AsgEq.foldl_step (fun a b d h => h.missStep d) (hab.append_outs _) fds
+    | some x =>
+      have h0 : AsgEq { tags := a.tags, outs := [] } { tags := b.tags, outs := [] } :=
+        ⟨hab.tags, List.Perm.refl _, fun _ => rfl⟩
+      have he := flatMapR_nbrs_resp ih c _ _ (edgeNbrs env owners nm ps (some x)) h0
+      revert he
+      cases flatMapR (fun n => evalNode env fuel c (some n) { tags := a.tags, outs := [] })
+          (edgeNbrs env owners nm ps (some x)) <;>
+        cases flatMapR (fun n => evalNode env fuel c (some n) { tags := b.tags, outs := [] })
+          (edgeNbrs env owners nm ps (some x)) <;> simp only [RelRR, false_imp_iff, imp_true_iff]
+      · intro he; exact foldFinish_resp env (some x) fds _ hab he
+      · intro he; exact he
+
+theorem evalFields_resp_of {env : SpecEnv} {fuel : Nat} (ih : NodeResp env fuel) (owners : List Name)
+    (fs : List QField) (v : Option VertexId) (as bs : List Asg) (h : F₂ as bs) :
+    RelRR F₂ (evalFields env fuel owners fs v as) (evalFields env fuel owners fs v bs) := by
+  induction fs generalizing as bs with
+  | nil => simpa [evalFields_nil, RelRR] using h
+  | cons fld rest ihf =>
+    cases fld with
+    | prop nm dirs => simp only [evalFields_prop]; exact ihf as bs h
+    | edge nm ps k c =>
+      simp only [evalFields_edge]
+      have he := flatMapR_rel (f := fun a => evalEdge env fuel owners nm ps k c v a)
+        (g := fun a => evalEdge env fuel owners nm ps k c v a) h
+        (fun x y hxy => evalEdge_resp_of ih owners nm ps k c v x y hxy)
+      revert he
+      cases flatMapR (fun a => evalEdge env fuel owners nm ps k c v a) as <;>
+        cases flatMapR (fun a => evalEdge env fuel owners nm ps k c v a) bs <;>
+        simp only [RelRR, false_imp_iff, imp_true_iff]
+      · intro he; exact ihf _ _ he
+      · intro he; exact he
+
+/-- The denotation respects `AsgEq`. -/
+theorem evalNode_resp (env : SpecEnv) (fuel : Nat) : NodeResp env fuel := by
+  induction fuel with
+  | zero => intro n v a b _; simp only [evalNode_zero]; trivial
+  | succ fuel ih =>
+    intro n v a b hab
+    obtain ⟨ct, fields⟩ := n
+    simp only [evalNode_succ, afterFilters_eq_gate]
+    have h1 := hab.bindProps env v fields
+    rw [propFiltersHold_congr env _ _ v fields (fun n _ => h1.tags n)]
+    split
+    · cases propFiltersHold env (bindProps env v fields b) v fields with
+      | ok ok =>
+        cases ok with
+        | true => exact evalFields_resp_of ih _ fields v _ _ (.cons h1 .nil)
+        | false => exact .nil
+      | panic s => simp [gate, RelRR]
+      | fuel => simp [gate, RelRR]
+    · exact .nil
+
+theorem evalFields_resp (env : SpecEnv) (fuel : Nat) (owners : List Name) (fs : List QField)
+    (v : Option VertexId) (as bs : List Asg) (h : F₂ as bs) :
+    RelRR F₂ (evalFields env fuel owners fs v as) (evalFields env fuel owners fs v bs) :=
+  evalFields_resp_of (evalNode_resp env fuel) owners fs v as bs h
+
+/-- Continuations respect `AsgEq`. -/
+theorem contOf_resp (env : SpecEnv) (fuel : Nat) (owners : List Name) (fs : List QField)
+    (v : Option VertexId) (a b : Asg) (h : AsgEq a b) :
+    F₂ (contOf env fuel owners fs v a) (contOf env fuel owners fs v b) := by
+  have := evalFields_resp env fuel owners fs v [a] [b] (.cons h .nil)
+  simp only [contOf]
+  revert this
+  cases evalFields env fuel owners fs v [a] <;> cases evalFields env fuel owners fs v [b] <;>
+    simp only [RelRR, false_imp_iff, imp_true_iff, okOr] <;> first | exact id | (intro; exact .nil)
+
+/-- `F false` and `F true` agree element by element up to `AsgEq`. -/
+def f2Rel : ListRel Bool where
+  Rel F := F₂ (F false) (F true)
+  Good g := ∀ a b, AsgEq a b → F₂ (g a) (g b)
+  nil := .nil
+  append h1 h2 := h1.append h2
+  flatMap hg h := h.flatMap hg
+
+/-- `F false` is a permutation of a list that agrees with `F true` up to `AsgEq`. -/
+def PermE (l0 l1 : List Asg) : Prop := ∃ l, l0.Perm l ∧ F₂ l l1
+
+theorem PermE.append {l0 l1 m0 m1 : List Asg} (h1 : PermE l0 l1) (h2 : PermE m0 m1) :
+    PermE (l0 ++ m0) (l1 ++ m1) := by
+  obtain ⟨l, hl, hf⟩ := h1
+  obtain ⟨m, hm, hg⟩ := h2
+  exact ⟨l ++ m, hl.append hm, hf.append hg⟩
+
+def permRel : ListRel Bool where
+  Rel F := PermE (F false) (F true)
+  Good g := ∀ a b, AsgEq a b → F₂ (g a) (g b)
+  nil := ⟨[], List.Perm.refl _, .nil⟩
+  append h1 h2 := h1.append h2
+  flatMap hg h := by
+    obtain ⟨l, hl, hf⟩ := h
+    exact ⟨l.flatMap _, List.Perm.flatMap_right _ hl, hf.flatMap hg⟩
+
+
+/-! ### assignments as a base plus an extension -/
+
+/-- `a` extended by the tags and outputs of `δ`. -/
+def ext (a δ : Asg) : Asg := { tags := a.tags ++ δ.tags, outs := a.outs ++ δ.outs }
+
+def emptyAsg : Asg := { tags := [], outs := [] }
+
+theorem ext_empty (a : Asg) : ext a emptyAsg = a := by simp [ext, emptyAsg]
+
+theorem ext_assoc (a δ ε : Asg) : ext (ext a δ) ε = ext a (ext δ ε) := by
+  simp [ext, List.append_assoc]
+
+theorem ext_inj (a : Asg) {δ ε : Asg} (h : ext a δ = ext a ε) : δ = ε := by
+  obtain ⟨t1, o1⟩ := δ
+  obtain ⟨t2, o2⟩ := ε
+  simp only [ext, Asg.mk.injEq, List.append_cancel_left_eq] at h
+  simp [h.1, h.2]
+
+def tagKeys (δ : Asg) : List Name := δ.tags.map (·.1)
+def outKeys (δ : Asg) : List Name := δ.outs.map (·.1)
+
+theorem tag?_some_mem {t : List (Name × Tagged)} {o : List (Name × Value)} {n : Name} {x : Tagged}
+    (h : Asg.tag? ⟨t, o⟩ n = some x) : n ∈ t.map (·.1) := by
+  simp only [Asg.tag?] at h
+  cases hf : List.find? (fun x => x.1 == n) t with
+  | none => simp [hf] at h
+  | some kv =>
+    have h1 := List.find?_some hf
+    have h2 := List.mem_of_find?_eq_some hf
+    simp only [beq_iff_eq] at h1
+    exact List.mem_map.mpr ⟨kv, h2, h1⟩
+
+theorem find?_some_mem_keys {o : List (Name × Value)} {n : Name} {x : Name × Value}
+    (h : o.find? (·.1 == n) = some x) : n ∈ o.map (·.1) := by
+  have h1 := List.find?_some h
+  have h2 := List.mem_of_find?_eq_some h
+  simp only [beq_iff_eq] at h1
+  exact List.mem_map.mpr ⟨x, h2, h1⟩
+
+theorem disjoint_iff {a b : List Name} : disjoint a b = true ↔ ∀ x ∈ a, x ∉ b := by
+  simp [disjoint, List.all_eq_true]
+
+/-- Two extensions with different keys commute up to `AsgEq`. -/
+theorem AsgEq.ext_comm (a δ ε : Asg) (ht : ∀ x ∈ tagKeys δ, x ∉ tagKeys ε)
+    (ho : ∀ x ∈ outKeys δ, x ∉ outKeys ε) : AsgEq (ext (ext a δ) ε) (ext (ext a ε) δ) := by
+  refine ⟨fun n => ?_, ?_, fun n => ?_⟩
+  · simp only [ext]
+    rw [tag?_append, tag?_append, tag?_append, tag?_append]
+    cases hA : Asg.tag? ⟨a.tags, (a.outs ++ δ.outs) ++ ε.outs⟩ n with
+    | some x =>
+      have e1 : Asg.tag? ⟨a.tags, (a.outs ++ ε.outs) ++ δ.outs⟩ n = some x := hA
+      simp [e1]
+    | none =>
+      have e1 : Asg.tag? ⟨a.tags, (a.outs ++ ε.outs) ++ δ.outs⟩ n = none := hA
+      simp only [e1, Option.none_or]
+      cases hD : Asg.tag? ⟨δ.tags, (a.outs ++ δ.outs) ++ ε.outs⟩ n with
+      | none =>
+        have e2 : Asg.tag? ⟨δ.tags, (a.outs ++ ε.outs) ++ δ.outs⟩ n = none := hD
+        simp [e2]
+      | some x =>
+        have e2 : Asg.tag? ⟨δ.tags, (a.outs ++ ε.outs) ++ δ.outs⟩ n = some x := hD
+        have hn : n ∈ tagKeys δ := tag?_some_mem hD
+        cases hE : Asg.tag? ⟨ε.tags, (a.outs ++ δ.outs) ++ ε.outs⟩ n with
+        | none =>
+          have e3 : Asg.tag? ⟨ε.tags, (a.outs ++ ε.outs) ++ δ.outs⟩ n = none := hE
+          simp [e2, e3]
+        | some y => exact absurd (tag?_some_mem hE) (ht n hn)
+  · simp only [ext, List.append_assoc]
+    exact List.Perm.append_left _ List.perm_append_comm
+  · simp only [ext, List.find?_append]
+    cases List.find? (fun x => x.1 == n) a.outs with
+    | some x => simp
+    | none =>
+      simp only [Option.none_or]
+      cases hD : List.find? (fun x => x.1 == n) δ.outs with
+      | none => simp
+      | some x =>
+        cases hE : List.find? (fun x => x.1 == n) ε.outs with
+        | none => simp
+        | some y => exact absurd (find?_some_mem_keys hE) (ho n (find?_some_mem_keys hD))
+
+/-- The tags and outputs one property contributes, as an extension. -/
+def propDelta (v : Option VertexId) (value : Value) (dirs : List Dir) : Asg :=
+  dirs.foldl (bindDir v value) emptyAsg
+
+theorem foldl_bindDir_ext (v : Option VertexId) (value : Value) (dirs : List Dir) (a δ : Asg) :
+    dirs.foldl (bindDir v value) (ext a δ) = ext a (dirs.foldl (bindDir v value) δ) := by
+  induction dirs generalizing δ with
+  | nil => rfl
+  | cons d dirs ih =>
+    simp only [List.foldl_cons]
+    have : bindDir v value (ext a δ) d = ext a (bindDir v value δ d) := by
+      cases d <;> simp [bindDir, ext, List.append_assoc]
+    rw [this, ih]
+
+theorem foldl_bindDir_eq_ext (v : Option VertexId) (value : Value) (dirs : List Dir) (a : Asg) :
+    dirs.foldl (bindDir v value) a = ext a (propDelta v value dirs) := by
+  have := foldl_bindDir_ext v value dirs a emptyAsg
+  rwa [ext_empty] at this
+
+theorem tagKeys_foldl_bindDir (v : Option VertexId) (value : Value) (dirs : List Dir) (δ : Asg) :
+    tagKeys (dirs.foldl (bindDir v value) δ) = tagKeys δ ++ dirs.flatMap dirTagDefs := by
+  induction dirs generalizing δ with
+  | nil => simp
+  | cons d dirs ih =>
+    simp only [List.foldl_cons, ih, List.flatMap_cons]
+    cases d <;> simp [bindDir, tagKeys, dirTagDefs]
+
+theorem outKeys_foldl_bindDir (v : Option VertexId) (value : Value) (dirs : List Dir) (δ : Asg) :
+    outKeys (dirs.foldl (bindDir v value) δ) = outKeys δ ++ dirs.flatMap dirOutNames := by
+  induction dirs generalizing δ with
+  | nil => simp
+  | cons d dirs ih =>
+    simp only [List.foldl_cons, ih, List.flatMap_cons]
+    cases d <;> simp [bindDir, outKeys, dirOutNames]
+
+/-! ### swapping a property with its neighbour -/
+
+theorem evalFields_single_prop_like (env : SpecEnv) (fuel : Nat) (owners : List Name) (f : QField)
+    (hf : isProp f = true) (v : Option VertexId) (as : List Asg) :
+    evalFields env fuel owners [f] v as = .ok as := by
+  cases f with
+  | prop nm dirs => simp [evalFields_prop, evalFields_nil]
+  | edge nm ps k c => simp [isProp] at hf
+
+theorem evalFields_swap_prop (env : SpecEnv) (fuel : Nat) (owners : List Name) (f g : QField)
+    (h : isProp f = true ∨ isProp g = true) (rest : List QField) (v : Option VertexId)
+    (as : List Asg) :
+    evalFields env fuel owners (g :: f :: rest) v as = evalFields env fuel owners (f :: g :: rest) v as := by
+  rw [evalFields_cons _ _ _ g, evalFields_cons _ _ _ f, evalFields_cons _ _ _ f rest,
+    evalFields_cons _ _ _ g rest]
+  rcases h with h | h
+  · simp only [evalFields_single_prop_like _ _ _ f h]
+    cases evalFields env fuel owners [g] v as <;> simp [evalFields_single_prop_like _ _ _ f h]
+  · simp only [evalFields_single_prop_like _ _ _ g h]
+    cases evalFields env fuel owners [f] v as <;> simp [evalFields_single_prop_like _ _ _ g h]
+
+/-- The hypotheses of a swap at position `j`: the two fields there. -/
+theorem swapAdj_spec {α : Type} (j : Nat) (l : List α) (f g : α) (hf : l[j]? = some f)
+    (hg : l[j + 1]? = some g) :
+    ∃ pre post, l = pre ++ f :: g :: post ∧ swapAdj j l = pre ++ g :: f :: post := by
+  induction l generalizing j with
+  | nil => simp at hf
+  | cons a l ih =>
+    cases j with
+    | zero =>
+      simp only [List.getElem?_cons_zero, Option.some.injEq] at hf
+      subst hf
+      cases l with
+      | nil => simp at hg
+      | cons b l =>
+        simp only [List.getElem?_cons_succ, List.getElem?_cons_zero, Option.some.injEq] at hg
+        subst hg
+        exact ⟨[], l, rfl, rfl⟩
+    | succ j =>
+      simp only [List.getElem?_cons_succ] at hf hg
+      obtain ⟨pre, post, h1, h2⟩ := ih j hf hg
+      exact ⟨a :: pre, post, by simp [h1], by simp [swapAdj, h2]⟩
+
+theorem evalFields_append (env : SpecEnv) (fuel : Nat) (owners : List Name) (pre rest : List QField)
+    (v : Option VertexId) (as : List Asg) :
+    evalFields env fuel owners (pre ++ rest) v as =
+      match evalFields env fuel owners pre v as with
+      | .ok as' => evalFields env fuel owners rest v as'
+      | .panic s => .panic s
+      | .fuel => .fuel := by
+  induction pre generalizing as with
+  | nil => simp [evalFields_nil]
+  | cons f pre ih =>
+    rw [List.cons_append, evalFields_cons, evalFields_cons _ _ _ f pre]
+    cases evalFields env fuel owners [f] v as with
+    | ok as' => exact ih as'
+    | panic s => rfl
+    | fuel => rfl
+
+theorem propFiltersHold_append (env : SpecEnv) (a : Asg) (v : Option VertexId)
+    (pre rest : List QField) :
+    propFiltersHold env a v (pre ++ rest) =
+      andR (propFiltersHold env a v pre) (propFiltersHold env a v rest) := by
+  induction pre with
+  | nil => simp [propFiltersHold]
+  | cons f pre ih => rw [List.cons_append, propFiltersHold_cons, propFiltersHold_cons, ih, andR_assoc]
+
+theorem bindProps_append (env : SpecEnv) (v : Option VertexId) (pre rest : List QField) (a : Asg) :
+    bindProps env v (pre ++ rest) a = bindProps env v rest (bindProps env v pre a) := by
+  induction pre generalizing a with
+  | nil => simp [bindProps]
+  | cons f pre ih =>
+    cases f with
+    | prop nm dirs => simp only [List.cons_append, bindProps_prop, ih]
+    | edge nm ps k c => simp only [List.cons_append, bindProps, ih]
+
+/-- The verdict of the filters does not depend on the order of two adjacent fields, when it exists
+in both orders. -/
+theorem andR_swap_ok (P F G Q : R Bool) (x y : Bool)
+    (h1 : andR P (andR G (andR F Q)) = .ok x) (h2 : andR P (andR F (andR G Q)) = .ok y) : x = y := by
+  rcases P with (_ | _) | _ | _ <;> rcases F with (_ | _) | _ | _ <;> rcases G with (_ | _) | _ | _ <;>
+    rcases Q with (_ | _) | _ | _ <;> simp_all [andR]
+
+theorem bindProps_swap (env : SpecEnv) (v : Option VertexId) (f g : QField)
+    (hok : swapPropsOK f g = true) (rest : List QField) (a : Asg) :
+    AsgEq (bindProps env v (g :: f :: rest) a) (bindProps env v (f :: g :: rest) a) := by
+  cases f with
+  | edge nm ps k c =>
+    cases g with
+    | edge nm' ps' k' c' => simp [swapPropsOK] at hok
+    | prop nm' d' => simp only [bindProps_prop, bindProps]; exact AsgEq.refl _
+  | prop nm d =>
+    cases g with
+    | edge nm' ps' k' c' => simp only [bindProps_prop, bindProps]; exact AsgEq.refl _
+    | prop nm' d' =>
+      simp only [swapPropsOK, Bool.and_eq_true, disjoint_iff] at hok
+      simp only [bindProps_prop]
+      apply AsgEq.bindProps
+      rw [foldl_bindDir_eq_ext v _ d' a, foldl_bindDir_eq_ext v _ d, foldl_bindDir_eq_ext v _ d a,
+        foldl_bindDir_eq_ext v _ d']
+      apply AsgEq.ext_comm
+      · intro x hx hx'
+        simp only [propDelta, tagKeys_foldl_bindDir, tagKeys, emptyAsg, List.map_nil, List.nil_append] at hx hx'
+        exact hok.1 x hx' hx
+      · intro x hx hx'
+        simp only [propDelta, outKeys_foldl_bindDir, outKeys, emptyAsg, List.map_nil, List.nil_append] at hx hx'
+        exact hok.2 x hx' hx
+
+theorem swapPropsOK_isProp {f g : QField} (h : swapPropsOK f g = true) :
+    isProp f = true ∨ isProp g = true := by
+  cases f <;> cases g <;> simp_all [swapPropsOK, isProp]
+
+theorem swapProps_local (env : SpecEnv) (j : Nat) (t : QNode) (f g : QField)
+    (hf : (fieldsOf t)[j]? = some f) (hg : (fieldsOf t)[j + 1]? = some g)
+    (hok : swapPropsOK f g = true) (fuel : Nat) (v : Option VertexId) (a : Asg) :
+    RelR f2Rel (fun i => evalNode env fuel (pick (swapAtF j) id i t) v a) := by
+  intro L hL
+  have h0 := hL false
+  have h1 := hL true
+  simp only [pick, id] at h0 h1
+  show F₂ (L false) (L true)
+  generalize L false = l0 at h0 ⊢
+  generalize L true = l1 at h1 ⊢
+  obtain ⟨ct, fields⟩ := t
+  simp only [fieldsOf] at hf hg
+  obtain ⟨pre, post, e1, e2⟩ := swapAdj_spec j fields f g hf hg
+  cases fuel with
+  | zero => simp [evalNode_zero] at h1
+  | succ fuel =>
+    simp only [swapAtF, e2, evalNode_succ, afterFilters_eq_gate] at h0
+    simp only [e1, evalNode_succ, afterFilters_eq_gate] at h1
+    by_cases hco : coercionOk env ct v = true
+    · simp only [hco, if_true] at h0 h1
+      -- the two assignments after binding the properties
+      have hA : AsgEq (bindProps env v (pre ++ g :: f :: post) a) (bindProps env v (pre ++ f :: g :: post) a) := by
+        rw [bindProps_append, bindProps_append]
+        exact bindProps_swap env v f g hok post _
+      -- same edges
+      have hE : ∀ as, evalFields env fuel (ownersOf env v) (pre ++ g :: f :: post) v as =
+          evalFields env fuel (ownersOf env v) (pre ++ f :: g :: post) v as := by
+        intro as
+        rw [evalFields_append, evalFields_append]
+        cases evalFields env fuel (ownersOf env v) pre v as with
+        | ok as' => exact evalFields_swap_prop env fuel _ f g (swapPropsOK_isProp hok) post v as'
+        | panic s => rfl
+        | fuel => rfl
+      rw [hE, propFiltersHold_congr env _ _ v _ (fun n _ => hA.tags n)] at h0
+      -- the verdicts
+      set b := bindProps env v (pre ++ f :: g :: post) a with hb
+      have hv : ∀ x y, propFiltersHold env b v (pre ++ g :: f :: post) = .ok x →
+          propFiltersHold env b v (pre ++ f :: g :: post) = .ok y → x = y := by
+        intro x y hx hy
+        rw [propFiltersHold_append, propFiltersHold_cons, propFiltersHold_cons] at hx hy
+        exact andR_swap_ok _ _ _ _ x y hx hy
+      have hR := evalFields_resp env fuel (ownersOf env v) (pre ++ f :: g :: post) v _ _
+        (Forall₂.cons hA .nil)
+      cases hp0 : propFiltersHold env b v (pre ++ g :: f :: post) with
+      | ok x =>
+        cases hp1 : propFiltersHold env b v (pre ++ f :: g :: post) with
+        | ok y =>
+          have := hv x y hp0 hp1
+          subst this
+          rw [hp0] at h0
+          rw [hp1] at h1
+          cases x with
+          | false => simp only [gate, R.ok.injEq] at h0 h1; rw [← h0, ← h1]; exact .nil
+          | true =>
+            simp only [gate] at h0 h1
+            rw [h0, h1] at hR
+            exact hR
+        | panic s => rw [hp1] at h1; simp [gate] at h1
+        | fuel => rw [hp1] at h1; simp [gate] at h1
+      | panic s => rw [hp0] at h0; simp [gate] at h0
+      | fuel => rw [hp0] at h0; simp [gate] at h0
+    · simp only [hco] at h0 h1
+      cases h0; cases h1; exact .nil
+
+theorem f2Rel_good (env : SpecEnv) (fuel : Nat) (owners : List Name) (rest : List QField)
+    (v : Option VertexId) : f2Rel.Good (contOf env fuel owners rest v) :=
+  fun a b h => contOf_resp env fuel owners rest v a b h
+
+theorem asgs_swapProps (env : SpecEnv) (q : Query) (p : Path) (j : Nat) (f g : QField)
+    (hp : NoFoldPath p q.root) (hf : fieldAt p j q.root = some f)
+    (hg : fieldAt p (j + 1) q.root = some g) (hok : swapPropsOK f g = true)
+    (as as' : List Asg) (h : asgs env q = .ok as) (h' : asgs env (swapSiblings p j q) = .ok as') :
+    F₂ as' as := by
+  obtain ⟨t, hdesc⟩ := noFold_descend hp
+  have hft : (fieldsOf t)[j]? = some f := by simpa [fieldAt, descend_fieldAt hdesc] using hf
+  have hgt : (fieldsOf t)[j + 1]? = some g := by simpa [fieldAt, descend_fieldAt hdesc] using hg
+  have := RelR_asgs f2Rel env false (fun fuel owners rest v => f2Rel_good env fuel owners rest v)
+    (pick (swapAtF j) id) p q t hdesc
+    (fun fuel v a _ => swapProps_local env j t f g hft hgt hok fuel v a) (pick as' as)
+  apply this
+  intro i
+  cases i with
+  | false => exact h'
+  | true => simpa [pick, onQuery_modNode_id] using h
+
 end TF.SpecMeta
